@@ -18,6 +18,12 @@ impl Default for SeededState {
     }
 }
 
+/// Set the seed used by every `SeededState` created from now on (single-threaded scenarios that
+/// do not go through `detsim::run`).
+pub fn set_run_seed(seed: u64) {
+    RUN_HASH_SEED.store(crate::rng::derive(seed, 0, 0x4A5), Ordering::Relaxed);
+}
+
 impl SeededState {
     pub fn new() -> Self {
         Self::default()
